@@ -11,18 +11,26 @@ def _isq(x):
     return isinstance(x, lib.pb.AbstractDimension)
 
 
+def rawhex(q):
+    """magnitude of a quantity, bit-exact; an int magnitude (Distance(0, ...)) is the same magnitude as the float"""
+    v = q.raw_value
+    if isinstance(v, (int, float)) and not isinstance(v, bool):
+        return float(v).hex()
+    return fhex(v)
+
+
 def dq(q):
     """quantity -> [dimension initial, raw hex]"""
     if q is None:
         return None
-    return [type(q).__name__, fhex(q.raw_value)]
+    return [type(q).__name__, rawhex(q)]
 
 
 def drow(row):
     out = []
     for v in row:
         if _isq(v):
-            out.append(fhex(v.raw_value))
+            out.append(rawhex(v))
         else:
             out.append(fhex(v) if isinstance(v, (float, int)) else repr(v))
     return out
@@ -40,7 +48,9 @@ def dexc(e):
     if isinstance(e, pb.ZeroFindingError):
         return {"exc": "ZeroFindingError", "error": fhex(e.zero_finding_error), "iterations": e.iterations_count,
                 "last": dq(e.last_barrel_elevation)}
-    return {"exc": type(e).__name__, "msg": strip_addr(str(e))[:200]}
+    # the message is not part of the digest: it may embed a quantity formatted in its display unit (display units
+    # are free) or an object address
+    return {"exc": type(e).__name__}
 
 
 def dvalue(v):
@@ -87,7 +97,7 @@ def snap(obj, units=False, _seen=None, _depth=0):
     if isinstance(obj, (int, float)):
         return fhex(obj)
     if _isq(obj):
-        r = ["Q", type(obj).__name__, fhex(obj._value)]
+        r = ["Q", type(obj).__name__, rawhex(obj)]
         if units:
             r.append(obj._defined_units.name if isinstance(obj._defined_units, pb.Unit) else repr(obj._defined_units))
         return r
